@@ -190,6 +190,29 @@ Example c13_cached_manager_refuted :
   mode_after false [([1%nat], true); ([1%nat], false)] 71 = Some ModeTLS.
 Proof. vm_compute. split; reflexivity. Qed.
 
+(* ---- SDS providers: the context in force over a history of secret pushes and config updates ---- *)
+Theorem c13_sds_update_always_installs : sds_update_always_installs = true.
+Proof. exact (eq_refl true). Qed.
+(* For EVERY history of certificate pushes, CA (validation) pushes and config updates (server_name, ALPN, verify flags,
+   insecure_skip): the provider is ready iff a certificate and a CA have arrived, and the context in force is the one built
+   from the LATEST certificate, the LATEST CA and the LATEST config. *)
+Theorem c13_sds_context_is_latest : forall cfg0 h,
+  let p := provider_after sds_update_always_installs cfg0 h in
+  match sp_cert p, sp_ca p with
+  | Some c, Some a => sp_ctx p = Some (mkSX c a (sp_cfg p))
+  | _, _ => sp_ctx p = None
+  end.
+Proof. exact sds_context_is_latest. Qed.
+Print Assumptions c13_sds_context_is_latest.
+(* keeping the old context when "the hash is unchanged" ignores a new server_name, a rotated CA, insecure_skip *)
+Example c13_sds_hash_shortcut_refuted :
+  let c1 := mkSC 1 0 true true true in let c2 := mkSC 2 0 true true false in
+  option_map sx_cfg (sp_ctx (provider_after false c1 [EvCert 1; EvCA 1; EvCfg c2])) = Some c1 /\
+  option_map sx_ca (sp_ctx (provider_after false c1 [EvCert 1; EvCA 1; EvCA 2])) = Some 1 /\
+  option_map sx_cfg (sp_ctx (provider_after true c1 [EvCert 1; EvCA 1; EvCfg c2])) = Some c2 /\
+  option_map sx_ca (sp_ctx (provider_after true c1 [EvCert 1; EvCA 1; EvCA 2])) = Some 2.
+Proof. vm_compute. repeat split; reflexivity. Qed.
+
 (* modelled behaviour outside the clause: while NO context is ready (SDS secrets not delivered) Conn() returns the raw connection *)
 Theorem c13_no_ready_context_is_raw : forall tcp insp b, conn_mode_of tcp false insp b = ModeRaw.
 Proof. exact not_ready_is_raw. Qed.
